@@ -30,6 +30,15 @@ def run(ck):
     ck.validate_traces('RoundTrip', 'Trace_RoundTrip.cfg', files, timeout=3000, jvm=['-Xss64m'])
     isa_common.family_check(ck, FAMILY, ck.pick(4, 12), 'c08', rounds=ck.pick(1, 2))
     isa_common.sweep_all(ck, 'c08', seedoff=800)
+    # in-system clause: interrupt entry / return and the context switch made by the entry (line and vectored, one flag per
+    # source, several sources raised by one trigger write) in guest programs on a real Teakra, single-stepped and sliced;
+    # the complete state after every slice must be that of System.tla, i.e. the interrupted stream resumes exactly
+    from props import sys_common
+    ck.build('sys_rec')
+    sfiles = sys_common.record(ck, ck.pick(6, 16), ck.pick(6, 16), tag='c08step', mode='step', seedoff=8100)
+    sfiles += sys_common.record(ck, ck.pick(6, 16), ck.pick(6, 16), tag='c08irq', seedoff=8200)
+    sfiles += sys_common.record(ck, ck.pick(4, 12), ck.pick(6, 12), tag='c08irqm', mode='irq', seedoff=8300)
+    sys_common.validate(ck, sfiles)
     ck.assumptions += isa_common.ISA_ASSUMPTIONS + [
         'product push/pop is stated with the product shifter off (C04 makes every product read apply the shift, so a '
         'shifted push cannot restore the raw product); status words are compared on their writable bits']
@@ -37,7 +46,10 @@ def run(ck):
 
 def replay(ck, path):
     p = path.split('#')[0]
-    if 'states_' in os.path.basename(p):
+    if os.path.basename(p).startswith('c08'):
+        from props import sys_common
+        sys_common.validate(ck, [p])
+    elif 'states_' in os.path.basename(p):
         ck.validate_traces('RoundTrip', 'Trace_RoundTrip.cfg', [p], jvm=['-Xss64m'])
     else:
         ck.validate_traces('IsaTrace', 'Trace_Isa.cfg', [p])
